@@ -378,6 +378,7 @@ impl<'a> GeneratorState<'a> {
                                         return Ok(ExprType::Tmp(signed));
                                     } 
                                     self.flags = FlagsState::A;
+                                    self.carry_flag_ok = false;
                                     self.acc_in_use = true;
                                     return Ok(ExprType::A(signed));
                                 }
@@ -589,6 +590,7 @@ impl<'a> GeneratorState<'a> {
                     self.sasm(DEX)?;
                 }
                 self.flags = FlagsState::X;
+                self.carry_flag_ok = false;
                 Ok(ExprType::X)
             },
             ExprType::Y => {
@@ -598,6 +600,7 @@ impl<'a> GeneratorState<'a> {
                     self.sasm(DEY)?;
                 }
                 self.flags = FlagsState::Y;
+                self.carry_flag_ok = false;
                 Ok(ExprType::Y)
             },
             ExprType::Absolute(variable, eight_bits, offset) => {
